@@ -145,7 +145,8 @@ inline Op decode(const uint8_t* b, const Profile& p) {
     }
     case O_MOVE_MOCK: o.a = {static_cast<int>(b[2] % NOBJ), b[3] % 2}; break;
     case O_DESTROY_MOCK: case O_RECREATE_MOCK: o.a = {static_cast<int>(b[2] % NOBJ)}; break;
-    case O_DESTROY_SEQ: case O_MOVE_SEQ: case O_RECREATE_SEQ: o.a = {static_cast<int>(b[2] % NSEQ)}; break;
+    case O_DESTROY_SEQ: case O_RECREATE_SEQ: o.a = {static_cast<int>(b[2] % NSEQ)}; break;
+    case O_MOVE_SEQ: o.a = {static_cast<int>(b[2] % NSEQ), b[3] % 3}; break;   // second: construction / assignment to fresh / assignment to moved-from
     case O_WATCH: {
       int nseq = pct(4, p.p_watch_seq) ? (b[5] % 4 == 0 ? 2 : 1) : 0;
       int s0 = b[6] % NSEQ;
